@@ -25,6 +25,7 @@ const (
 	mkStr
 	mkArr
 	mkMap
+	mkFn  // a host function of the data map (S: its name there), as a value: bound to a local, called through it
 	mkBig // an integer literal with more significant digits than a 34-digit context keeps; only bound, read and compared
 )
 
@@ -56,6 +57,8 @@ func (v MV) String() string {
 		return strconv.Quote(v.S)
 	case mkBig:
 		return v.S
+	case mkFn:
+		return "fn"
 	case mkArr:
 		var p []string
 		for _, e := range v.A {
@@ -111,6 +114,13 @@ func (v MV) toGo(flavour int) interface{} {
 		}
 	case mkStr:
 		return v.S
+	case mkFn:
+		if fnResolve != nil {
+			if f := fnResolve(v.S); f != nil {
+				return f
+			}
+		}
+		return dummyFn // a function of a map that is gone: still a function
 	case mkBig:
 		if v.N == 1 { // handed over by the caller as a Go float64
 			f, _ := strconv.ParseFloat(v.S, 64)
@@ -135,10 +145,18 @@ func (v MV) toGo(flavour int) interface{} {
 }
 
 // matches compares a model value with what the implementation produced.
+// fnResolve: while a caller's map is being rebuilt from the model (harness code only, no library
+// call in between), the function that a function-valued model entry stands for.
+var fnResolve func(name string) interface{}
+
+func dummyFn(v interface{}) (interface{}, error) { return v, nil }
+
 func matches(v MV, got interface{}) bool {
 	switch v.K {
 	case mkNull:
 		return got == nil
+	case mkFn:
+		return isFunc(got)
 	case mkBool:
 		b, ok := got.(bool)
 		return ok && b == v.B
@@ -336,7 +354,7 @@ func (n *MNode) text(cx int) string {
 
 // stubsUsed lists the host functions a formula calls.
 func (n *MNode) stubsUsed(into map[string]bool) {
-	if n.Op == nCall && n.Name != "max" && n.Name != "abs" {
+	if n.Op == nCall && n.Name != "max" && n.Name != "abs" && n.Name != "includes" {
 		into[n.Name] = true
 	}
 	for _, k := range n.Kids {
@@ -441,6 +459,9 @@ func (e *mEnv) eval(n *MNode) (MV, error) {
 	case nLit:
 		return n.V, nil
 	case nName, nLocal:
+		if n.Op == nName && e.m.hasThis && e.m.stubs[n.Name] {
+			return MV{K: mkFn, S: n.Name}, nil // a host function of the data map, as a value
+		}
 		return e.m.lookup(n.Name), nil
 	case nThis:
 		if !e.m.hasThis {
@@ -564,6 +585,28 @@ func (e *mEnv) eval(n *MNode) (MV, error) {
 	case nBadAssign:
 		return mNull(), errModelBadTarget
 	case nCall:
+		if n.Name == "includes" {
+			lst, err := e.eval(n.Kids[0])
+			if err != nil {
+				return mNull(), err
+			}
+			it, err := e.eval(n.Kids[1])
+			if err != nil {
+				return mNull(), err
+			}
+			if lst.K != mkArr || it.K != mkStr {
+				return mNull(), errModelType
+			}
+			for _, x := range lst.A {
+				if x.K != mkStr {
+					return mNull(), errModelType
+				}
+				if x.S == it.S {
+					return mBool(true), nil
+				}
+			}
+			return mBool(false), nil
+		}
 		if n.Name == "max" || n.Name == "abs" {
 			// builtins of the library: always there, evaluate their arguments left to right
 			args := make([]MV, 0, len(n.Kids))
@@ -591,7 +634,16 @@ func (e *mEnv) eval(n *MNode) (MV, error) {
 			}
 			return best, nil
 		}
-		if !e.m.hasThis || !e.m.stubs[n.Name] {
+		name := n.Name
+		if strings.HasPrefix(name, "$") {
+			// the callee is a local that holds a function: it is read before the arguments are evaluated
+			v := e.m.lookup(name)
+			if v.K != mkFn {
+				return mNull(), errModelNotFunc
+			}
+			name = v.S
+		}
+		if !e.m.hasThis || !e.m.stubs[name] {
 			return mNull(), errModelNotFunc
 		}
 		if n.Name == "evk" {
@@ -625,7 +677,7 @@ func (e *mEnv) eval(n *MNode) (MV, error) {
 		}
 		args := make([]MV, 0, len(n.Kids))
 		for i, k := range n.Kids {
-			if n.Name == "poke" && i == 0 {
+			if name == "poke" && i == 0 {
 				continue // `this`: the data map itself, handed to the host
 			}
 			v, err := e.eval(k)
@@ -646,11 +698,11 @@ func (e *mEnv) eval(n *MNode) (MV, error) {
 			p = append(p, a.String())
 		}
 		e.calls++
-		e.log = append(e.log, n.Name+"("+strings.Join(p, ",")+")")
+		e.log = append(e.log, name+"("+strings.Join(p, ",")+")")
 		if e.faultAt == e.calls {
 			return mNull(), errModelHost
 		}
-		switch n.Name {
+		switch name {
 		case "rec":
 			return args[0], nil
 		case "fail":
